@@ -7,6 +7,7 @@ import (
 	"testing"
 	"time"
 
+	"github.com/IrineSistiana/mosdns/v5/pkg/pool"
 	"github.com/IrineSistiana/mosdns/v5/zz_verif/fk"
 	"github.com/IrineSistiana/mosdns/v5/zz_verif/vr"
 	"github.com/IrineSistiana/mosdns/v5/zz_verif/vs"
@@ -20,7 +21,14 @@ type c09extra struct {
 	measured     bool
 	reservedEnd  int
 	queueEnd     int
+	// transports: a probe query issued after all calls returned
+	probed       bool
+	probeHealthy int // live, healthy, drained connections at that moment
+	probeDials   int // dials the probe caused
 }
+
+// scenarios whose schedule space leaves no room for the probe phase in the quick budget
+var c09NoProbe = map[string]bool{"pipeline-tcp-L2-q2-c3": true}
 
 func c09Scenario(name string, o tOpt, p int, expectAllOK bool) vr.Scenario {
 	var sys *tsys
@@ -39,11 +47,45 @@ func c09Scenario(name string, o tOpt, p int, expectAllOK bool) vr.Scenario {
 				pt.m.Lock()
 				for lc := range pt.conns {
 					lc.mu.Lock()
-					ex.lazyCounters = append(ex.lazyCounters, lc.reservedQuery)
+					ex.lazyCounters = append(ex.lazyCounters, intField(lc, "reservedQuery"))
 					lc.mu.Unlock()
 				}
 				pt.m.Unlock()
 			}
+			// capacity of the transport: with a live, healthy, drained connection at
+			// hand (nothing unanswered, nothing unread, nobody closed it) one more
+			// query must be admitted by it, not cause a dial
+			if o.Closer || len(o.DialMenu) > 0 || o.WriteFailNth > 0 || c09NoProbe[name] {
+				return
+			}
+			vs.Sleep(time.Millisecond)
+			for _, cn := range s.conns {
+				if !cn.a.Closed() && !cn.b.Closed() && !cn.closedBySrv && !cn.silent && len(cn.pending) == 0 && cn.a.Pending() == 0 && cn.b.Pending() == 0 {
+					ex.probeHealthy++
+				}
+			}
+			// as many concurrent probes as these connections have room for, answers
+			// held back until all of them are on the wire
+			d0 := s.dials
+			s.hold = true
+			vs.Freeze() // the probes are an instrument: default schedule from here on
+			var pw vs.WaitGroup
+			for i := 0; i < ex.probeHealthy*limit; i++ {
+				i := i
+				pw.Add(1)
+				vs.GoNamed(fmt.Sprintf("probe%d", i), func() {
+					defer pw.Done()
+					ctx, cancel := vs.WithTimeout(bg, 3*time.Second)
+					defer cancel()
+					if r, _ := s.tr.ExchangeContext(ctx, fk.Query(uint16(0x7780+i), "probe.example.", 1)); r != nil {
+						pool.ReleaseBuf(r)
+					}
+				})
+			}
+			vs.Sleep(time.Millisecond)
+			ex.probed, ex.probeDials = true, s.dials-d0
+			s.hold = false
+			pw.Wait()
 		}
 		s.run()
 		// capacity differential on the directly driven connection: only when it
@@ -88,7 +130,7 @@ func c09Scenario(name string, o tOpt, p int, expectAllOK bool) vr.Scenario {
 				// loop) while we measure: capacity of a dead connection is not defined
 				ex.measured = !sawClosed
 				s.dc.queueMu.Lock()
-				ex.reservedEnd, ex.queueEnd = s.dc.reservedQuery, len(s.dc.queue)
+				ex.reservedEnd, ex.queueEnd = intField(s.dc, "reservedQuery"), len(s.dc.queue)
 				s.dc.queueMu.Unlock()
 			}
 			s.run()
@@ -150,6 +192,12 @@ func c09Scenario(name string, o tOpt, p int, expectAllOK bool) vr.Scenario {
 			}
 			if ex.queueEnd != o.SeedQueue {
 				return V("waiter-leak", fmt.Sprintf("%d waiters left in the queue at quiescence", ex.queueEnd-o.SeedQueue))
+			}
+		}
+		if ex.probed && x.EarlyTimers == 0 {
+			key = append(key, fmt.Sprintf("probe%d/%d", ex.probeHealthy, ex.probeDials))
+			if ex.probeHealthy > 0 && ex.probeDials > 0 {
+				return V("capacity-lost", fmt.Sprintf("after all calls returned %d healthy connection(s) without any unanswered query existed (limit %d each), yet %d further concurrent queries caused %d dial(s): a live connection admits fewer queries than a fresh one", ex.probeHealthy, limit, ex.probeHealthy*limit, ex.probeDials))
 			}
 		}
 		key = append(key, fmt.Sprintf("dials%d", s.dials))
